@@ -7,7 +7,7 @@ from fractions import Fraction
 from ..model import AnalysisError
 from ..symex import Obj
 from ..terms import T, sym, t_mul, t_add, t_pow, is_num, canon, show, subterms
-from .c13_model import (World, NAMES, E, lin, tensor, norm, value, same_value, raw, raw_name, substitute, linear_form,
+from .c13_model import (World, arg, NAMES, E, lin, tensor, norm, value, same_value, raw, raw_name, substitute, linear_form,
                         permutation_map, as_self, fmt, frac, indices_of)
 
 EXPLANATION = "see below"
@@ -286,8 +286,8 @@ def r13e(ctx):
 
 def _far_model(w, sx, a, kw):
     """contract of factor_and_remove_number: expr / number"""
-    e = a[0] if a else kw["expr"]
-    n = a[1] if len(a) > 1 else kw["number"]
+    e = arg(a, kw, 0, "expr")
+    n = arg(a, kw, 1, "number")
     w.log.append(("factor_and_remove_number", (e, n)))
     return w.wrap_like(e, norm(t_mul(raw(e), T("pow", n, -1)))) if isinstance(e, Obj) else norm(t_mul(e, T("pow", n, -1)))
 
@@ -449,7 +449,7 @@ def _sx_permute_num(ctx, rule, fnref):
         w.extra_hooks["factor_and_remove_number"] = lambda sx, a, kw, w=w: _far_model(w, sx, a, kw)
 
         def des(sx, a, kw, mk=mk, w=w):
-            st["kw"] = dict(kw)
+            st["kw"] = dict(kw.get("kwargs") or {}, **{k: v for k, v in kw.items() if k != "kwargs"})
             st["pos"] = list(a[1:])
             st["sym"] = mk(w)
             return dict(st["sym"])
@@ -519,6 +519,7 @@ def _sx_symmetrize(ctx, rule, fnref):
                    "operation is applied without its factor", key=f"{lab} {name} normalisation")
             kw = st.get("kw", {})
             oc = kw.get("only_contracted", st["pos"][0] if st["pos"] else None)
+            kw = {k: v for k, v in kw.items() if v is not False}
             ctx.check(rule, fn, oc is True and not kw.get("only_target"), "only contracted indices are permuted",
                       f"{what}: symmetry requested with {fmt(kw)} {fmt(st['pos'])}", key=f"{lab} {name} contracted")
 
@@ -538,7 +539,7 @@ def _sx_derivative(ctx, rule, fnref):
             st["sym"] = mk(w)
             return dict(st["sym"])
         w.extra_hooks["symmetry"] = symh
-        w.extra_hooks["minimize_tensor_indices"] = lambda sx, a, kw: (a[0], ())
+        w.extra_hooks["minimize_tensor_indices"] = lambda sx, a, kw: (arg(a, kw, 0, "tensor_indices"), ())
         w.extra_hooks["diff"] = lambda sx, a, kw: T("call", "diff", (raw(a[0]), raw(a[1])), ())
         w.extra_hooks["Index"] = lambda sx, a, kw: sym("$x")
         sx = w.make(ctx, lab)
@@ -615,7 +616,9 @@ def r13b(ctx):
             st["me"] = eo_self(w, 1, B(i=1, a=-1), 1, ERI)
             return dict(self=st["me"], eri_sym={"given": 1} if given else None, kwargs={"only_contracted": True})
         for o in returned(ctx, rule, fn, sx.run(fn, args), f"denom_eri_sym[number, {name}]", f"denom_eri_sym number {name}"):
-            ok = o.value == ({"given": 1} if given else {"marker": 1}) and (given or st.get("kw") == {"only_contracted": True})
+            kw = st.get("kw") or {}
+            ok = o.value == ({"given": 1} if given else {"marker": 1}) and \
+                (given or (kw.get("only_contracted") is True and not kw.get("only_target")))
             ctx.check(rule, fn, ok, f"number denominator, symmetry {name}: the symmetry of the remainder",
                       f"denom_eri_sym[number, {name}] returns {fmt(o.value)}", key=f"denom_eri_sym number {name}")
 
@@ -716,7 +719,7 @@ def r13c(ctx):
     def eo_hook(sx, a, kw):
         me = eo_self(w, Fraction(-1, 2), B(i=1, a=-1), T("pow", B(**B1), 2), ERI)
         me.attrs["symbolic_denominator"] = lambda sx_, a_, kw_: w.expr(SD, antisym_tensors=(D,))
-        st["arg"] = a[0] if a else kw.get("term")
+        st["arg"] = arg(a, kw, 0, "term")
         return me
     w.extra_hooks["EriOrbenergy"] = eo_hook
     sx = w.make(ctx, "Term.use_symbolic_denominators")
@@ -966,7 +969,9 @@ def _obj_expand_intermediates(ctx, rule):
             calls = []
 
             def expand_itmd(sx, a, kw, calls=calls):
-                calls.append((list(a), dict(kw)))
+                from .c13_model import named
+                a2, kw2 = named(sx, "expand_itmd", [None] + list(a), kw)
+                calls.append((a2[1:], kw2))
                 return sym(f"$X{len(calls)}")
 
             def intermediates(sx, a, kw, known=known, expand_itmd=expand_itmd):
@@ -1273,7 +1278,7 @@ def r13g(ctx):
                               f"{what}: assumptions of the sub-expressions {[w.assumptions_of(g) if isinstance(g, Obj) else None for g in res]}",
                               key=what + " assumptions")
                 if name == "factor_denom":
-                    ctx.check(rule, fn, st["found"][1].get("eri_sym", st["found"][0][1] if len(st["found"][0]) > 1 else None) == sym("$eri_sym"),
+                    ctx.check(rule, fn, arg(st["found"][0], st["found"][1], 1, "eri_sym") == sym("$eri_sym"),
                               "symmetry of the remainder forwarded", f"{what}: find_compatible_denom called with {fmt(st['found'][1])}", key=what + " eri_sym")
         # single term: unchanged
         w = World(IDX)
@@ -1285,7 +1290,7 @@ def r13g(ctx):
     # -- the remainder of a term: everything but numbers and orbital energies, protected by the targets of the full term
     fn = ctx.model.fn(RE + "find_compatible_eri_parts")
     w = World(IDX)
-    w.extra_hooks["find_compatible_terms"] = lambda sx, a, kw: st.__setitem__("parts", list(a[0])) or {"marker": 1}
+    w.extra_hooks["find_compatible_terms"] = lambda sx, a, kw: st.__setitem__("parts", list(arg(a, kw, 0, "terms"))) or {"marker": 1}
     sx = w.make(ctx, "find_compatible_eri_parts")
     tv = [norm(t_mul(Fraction(-1, 2), ERI, TAMP, E("k"), T("pow", B(**B1), -2), T("pow", E("c"), -1))), norm(t_mul(T("pow", ERI, 2), B(**B3))),
           norm(t_mul(3, TAMP))]
@@ -1331,14 +1336,14 @@ def _reduce_expr(ctx, rule):
             return w.wrap_like(t, t_add(t_mul(v, sym("$A")), t_mul(v, sym("$B")), t_mul(v, t_add(1, t_mul(-1, sym("$A")), t_mul(-1, sym("$B"))))))
 
         def find_parts(sx, a, kw):
-            n = len(a[0])
+            n = len(arg(a, kw, 0, "term_list"))
             out = {0: {j: [] for j in range(2, n, 2)}}
             if n > 1:
                 out[1] = {j: [] for j in range(3, n, 2)}
             return out
 
         def eo(sx, a, kw):
-            t = a[0]
+            t = arg(a, kw, 0, "term")
             me = Obj(None, "eo")
             res = w.wrap_like(t, raw(t))
             me.attrs.update({"$id": True, "eri": w.terms_of(w.wrap_like(t, ERI))[0], "num": w.expr(1),
@@ -1346,8 +1351,8 @@ def _reduce_expr(ctx, rule):
             return me
         w.extra_hooks.update({
             "expand_intermediates": expand_intermediates,
-            "factor_eri_parts": lambda sx, a, kw: split(a[0], 2),
-            "factor_denom": lambda sx, a, kw: split(a[0], 1),
+            "factor_eri_parts": lambda sx, a, kw: split(arg(a, kw, 0, "expr"), 2),
+            "factor_denom": lambda sx, a, kw: split(arg(a, kw, 0, "expr"), 1),
             "substitute_contracted": lambda sx, a, kw: [],
             "find_compatible_eri_parts": find_parts,
             "EriOrbenergy": eo,
